@@ -2,8 +2,7 @@ import ScrutModel.Model.Pretty
 import Driver.Util
 /-! `pdiff`, `hl`, `sections` ops: the renderers' decision logic (C19). -/
 open Scrut Scrut.Pretty
-namespace Driver
-
+namespace Driver.PrettyOps
 def parseNatList (s : String) : Option (List Nat) :=
   if s == "" || s == "-" then some [] else (s.splitOn ",").mapM (·.toNat?)
 
@@ -117,4 +116,4 @@ def opSections (args : List String) : String :=
     | none => "bad-op"
   | _ => "bad-op"
 
-end Driver
+end Driver.PrettyOps
